@@ -1,4 +1,4 @@
-//@unit U17 props=C01,C13,C14 rlimit=100 SendChannelReliable::get_packets_to_send as a whole: prologue, loop summary (rule D18), final flush (renet/src/channel/reliable.rs)
+//@unit U17 props=C01,C02,C13,C14 rlimit=100 SendChannelReliable::get_packets_to_send as a whole: prologue, loop summary (rule D18), final flush (renet/src/channel/reliable.rs)
 #![feature(allocator_api)]
 #![allow(unused_imports, dead_code, unused_variables, unused_mut)]
 use vstd::prelude::*;
@@ -77,8 +77,8 @@ pub fn reliable_send_loop_step(message_id: u64, unacked_message: &mut UnackedMes
         rloop_inv(rl(old(packets)@, old(small_messages)@, *old(small_messages_bytes), *old(packet_sequence), *old(available_bytes)), seq0, avail0, steps),
         0 <= seq0, 0 <= avail0, seq0 + avail0 + steps + 2 <= 0x4000_0000_0000_0000,
     ensures
-        final(unacked_message).wf(),                                                   // @C01,C13 loop_step.element_invariant_kept
-        final(unacked_message).msg() == old(unacked_message).msg(),                    // @C01,C03 loop_step.bytes_untouched
+        final(unacked_message).wf(),                                                   // @C01,C02,C13 loop_step.element_invariant_kept
+        final(unacked_message).msg() == old(unacked_message).msg(),                    // @C01,C02,C03 loop_step.bytes_untouched
         final(unacked_message).sent_not_after(current_time),                           // @C15 loop_step.timestamps_not_in_future
         rloop_inv(rl(final(packets)@, final(small_messages)@, *final(small_messages_bytes), *final(packet_sequence), *final(available_bytes)), seq0, avail0, steps + 1),   // @C13,C14 loop_step.invariant_carried_to_the_next_iteration
 {
